@@ -221,6 +221,10 @@ func c12Run(j c12Job) *jobReport {
 			poisoned = true
 			return false
 		}
+		if sig, what := w.heldWriteViolation(); sig != "" {
+			rep.fail(sig, map[string]interface{}{"config": cfg, "what": what})
+			w.HeldWrite = 0
+		}
 		var code int
 		if p := safely(func() { code, _ = w.httpDo("GET", "/api/v1/equipment", nil) }); p != "" || code != 200 {
 			rep.fail("liveness-probe-fails/after-"+strings.Split(after, " ")[0], map[string]interface{}{"config": cfg, "after": after, "code": code, "panic": firstLine(p)})
